@@ -20,7 +20,7 @@ func init() {
 		Level:     "exploration",
 		Technique: "bounded exhaustive input enumeration (markup-hostile atoms and all ordered pairs in every text context; all small shapes with separators anywhere) rendered by the real code and tokenised by an independent strict tag/text tokenizer",
 		Rule: "family hostile-text: each of 18 atoms and every ordered pair in 7 contexts (header cell, body cell, caption, id, class, row-class generator value, all at once); " +
-			"family shapes: header none/0..3 cells, <=3 rows (thorough <=4) each separator or 0..3 cells, with and without row-class generator, template name empty or set, rendered twice on the same wrapper; " +
+			"family wrapper-lifecycle: every sequence of <=5 (thorough 6) operations {set generator A, set generator B, set caption, set id+class, add row, add separator, Render} on one long-lived wrapper, each Render validated against the configuration current at that moment; family shapes: header none/0..3 cells, <=4 rows (thorough <=5) each separator or 0..3 cells, with and without row-class generator, template name empty or set, rendered twice on the same wrapper; " +
 			"non-trivial = text containing a markup-significant character, or a shape with separators/zero-cell rows/no header; distinct by input",
 		Assumptions: []string{"NUL and invalid UTF-8 are outside the alphabet (html/template replaces them by design)", "whitespace between structural tags is ignored"},
 		QuickBudget: 120 * time.Second, ThoroughBudget: 15 * time.Minute,
@@ -109,7 +109,8 @@ type c06Input struct {
 	g                  *Grid
 	caption, id, class string
 	gen                bool
-	genVal             string // value returned by the generator ("" -> odd/even)
+	genVal             string // value returned by the generator ("" -> r<n> or <genTag><n>)
+	genTag             string
 	tmplName           string
 }
 
@@ -201,7 +202,11 @@ func c06Validate(x *X, in *c06Input, g *Grid, tags []string, out string, calls [
 		}
 		v := in.genVal
 		if v == "" {
-			v = fmt.Sprintf("r%d", n)
+			tag := in.genTag
+			if tag == "" {
+				tag = "r"
+			}
+			v = fmt.Sprintf("%s%d", tag, n)
 		}
 		return [][2]string{{"class", v}}
 	}
@@ -298,7 +303,91 @@ func c06Validate(x *X, in *c06Input, g *Grid, tags []string, out string, calls [
 	return true
 }
 
+// c06Lifecycle: one long-lived wrapper whose configuration and table change between renders;
+// every render must reflect the configuration current at that moment.
+func c06Lifecycle(x *X, c *Chooser, depth int) {
+	g := &Grid{HasHeader: true, Header: []string{"h1", "h2"}, Rows: []GridRow{{Cells: []string{"c1", "c2"}}, {Sep: true}, {Cells: []string{"d1"}}}}
+	t := thtml.New()
+	g.Build(t)
+	in := &c06Input{g: g}
+	var calls []int
+	genFor := func(tag string) func(int, interface{}) template.HTMLAttr {
+		return func(n int, ctx interface{}) template.HTMLAttr {
+			calls = append(calls, n)
+			return template.HTMLAttr(fmt.Sprintf("%s%d", tag, n))
+		}
+	}
+	c.Logf("ht := html.New() with %s", g)
+	renders := 0
+	var ops []string
+	for step := 0; step < depth; step++ {
+		k := c.Choose(8)
+		if k == 0 {
+			break
+		}
+		x.Transition(1)
+		switch k {
+		case 1, 2:
+			tag := []string{"A", "B"}[k-1]
+			c.Logf("ht.SetRowClassGenerator(gen%s)", tag)
+			t.SetRowClassGenerator(genFor(tag), nil)
+			in.gen, in.genVal, in.genTag = true, "", tag
+			ops = append(ops, "gen"+tag)
+		case 3:
+			in.caption = fmt.Sprintf("cap<%d>", step)
+			c.Logf("ht.Caption = %q", in.caption)
+			t.Caption = in.caption
+			ops = append(ops, "caption")
+		case 4:
+			in.id, in.class = fmt.Sprintf("id%d", step), fmt.Sprintf("cls %d", step)
+			c.Logf("ht.Id, ht.Class = %q, %q", in.id, in.class)
+			t.Id, t.Class = in.id, in.class
+			ops = append(ops, "idclass")
+		case 5:
+			c.Logf("ht.AddRowItems(%q)", fmt.Sprintf("new%d", step))
+			t.AddRowItems(fmt.Sprintf("new%d", step), "&<")
+			g.Rows = append(g.Rows, GridRow{Cells: []string{fmt.Sprintf("new%d", step), "&<"}})
+			ops = append(ops, "addrow")
+		case 6:
+			c.Logf("ht.AddSeparator()")
+			t.AddSeparator()
+			g.Rows = append(g.Rows, GridRow{Sep: true})
+			ops = append(ops, "addsep")
+		case 7:
+			c.Logf("ht.Render()")
+			calls = nil
+			var out string
+			var err error
+			if p, val, site := Safe(func() { out, err = t.Render() }); p {
+				x.FailSite("C06.no_panic", []string{"lifecycle", "panic"}, site, "html Render panicked: %v after %v", val, ops)
+				return
+			}
+			renders++
+			tags := []string{"lifecycle"}
+			if renders > 1 {
+				tags = append(tags, "second_render_same_wrapper", "configuration_changed_between_renders")
+			}
+			x.Clause("C06.succeeds")
+			if err != nil {
+				x.Fail("C06.succeeds", tags, "html Render failed: %v after %v", err, ops)
+				return
+			}
+			if !c06Validate(x, in, g, tags, out, calls, renders-1) {
+				return
+			}
+			ops = append(ops, "render")
+		}
+	}
+	x.State(fmt.Sprint(ops))
+	if renders > 1 {
+		x.Nontrivial(fmt.Sprint(ops))
+	}
+}
+
 func runC06(x *X) {
+	x.Explore("wrapper-lifecycle", ExploreOpts{ShardDepth: 2, Bound: fmt.Sprintf("all sequences of <=%d operations {set generator A, set generator B, set caption, set id+class, add row, add separator, Render} on one long-lived wrapper", x.Pick(5, 6))}, func(c *Chooser) {
+		c06Lifecycle(x, c, x.Pick(5, 6))
+	})
 	var texts []string
 	texts = append(texts, c06Atoms...)
 	for _, a := range c06Atoms {
